@@ -530,6 +530,8 @@ func (u *Upgrade) failRelease(rel *release.Release, created kube.ResourceList, e
 
 		rollin := NewRollback(u.cfg)
 		rollin.Version = filteredHistory[0].Version
+		// The rollback needs a wait strategy of its own: without one it cannot obtain a waiter.
+		rollin.WaitStrategy = u.WaitStrategy
 		if u.WaitStrategy == kube.HookOnlyStrategy {
 			rollin.WaitStrategy = kube.StatusWatcherStrategy
 		}
